@@ -6,6 +6,8 @@ Scalars may be Fraction, float or symex.SymNum.
 
 from __future__ import annotations
 
+from fractions import Fraction
+
 from vkit import symex
 
 
@@ -140,7 +142,7 @@ def im2col(x, kh, kw, sh, sw, ph, pw):
                     for a in range(kh):
                         for b in range(kw):
                             y, xx = i * sh + a - ph, j * sw + b - pw
-                            row.append(x[nn][cc][y][xx] if 0 <= y < h and 0 <= xx < w else 0)
+                            row.append(x[nn][cc][y][xx] if 0 <= y < h and 0 <= xx < w else Fraction(0))
                 rows.append(row)
     return rows, oh, ow
 
